@@ -10,26 +10,27 @@
 (* unchanged up to the renaming of nodes.                                  *)
 (***************************************************************************)
 EXTENDS Drawing, Json
-CONSTANTS MaxItems, Syms, WireWeight, MinItems, WithAC
+CONSTANTS MaxItems, Syms, WireWeight, MinItems, WithAC, Randomised, MaxLabels
 VARIABLES prog
 vars == <<prog>>
 
 Count(k) == Cardinality({i \in DOMAIN prog : prog[i].k = k})
 UsedPts == {prog[i].a : i \in DOMAIN prog} \cup {prog[i].b : i \in DOMAIN prog}
 Init == prog = <<>>
+\* the placements that may follow (the tag t only weights the random choice of the simulator)
+AdjPairs == {p \in Pts \X Pts : Adj(p[1], p[2])}
+DegSyms == {"ACV", "ACI", "RectV", "TriV", "SawV", "RectI", "TriI", "SawI"}
+Cand ==
+   LET ok == {p \in AdjPairs : prog = <<>> \/ p[1] \in UsedPts \/ p[2] \in UsedPts} IN       \* drawings grow connected, as drawn circuits do
+        {Item(k, p[1], p[2], FALSE, FALSE) : k \in Syms \ SourceSyms, p \in ok}
+   \cup {Item(k, p[1], p[2], rev, FALSE) : k \in (Syms \cap SourceSyms) \ DegSyms, p \in ok, rev \in BOOLEAN}
+   \cup {Item(k, p[1], p[2], rev, deg) : k \in Syms \cap DegSyms, p \in ok, rev \in BOOLEAN, deg \in BOOLEAN}
+   \cup {Item("wire", p[1], p[2], FALSE, FALSE) @@ [t |-> t] : p \in ok, t \in 1..WireWeight}
+   \cup (IF Count("gnd") = 0 THEN {Item("gnd", a, a, FALSE, FALSE) @@ [t |-> t] : a \in UsedPts, t \in 1..(3 * WireWeight)} ELSE {})
+   \cup (IF Count("label") < MaxLabels THEN {Item("label", a, a, FALSE, FALSE) @@ [t |-> t] : a \in UsedPts, t \in 1..(3 * WireWeight)} ELSE {})
+\* Randomised: the simulator draws ONE successor (TLC!RandomElement), so that every emitted scenario lies on an independent random path
 Add == /\ Len(prog) < MaxItems
-       /\ \/ \E a \in Pts, b \in Pts, k \in Syms \cup {"wire"}, rev \in BOOLEAN, deg \in BOOLEAN :
-               /\ Adj(a, b)
-               /\ (prog = <<>> \/ a \in UsedPts \/ b \in UsedPts)        \* drawings grow connected, as drawn circuits do
-               /\ (k \notin SourceSyms => ~rev)
-               /\ (k \notin {"ACV", "ACI", "RectV", "TriV", "SawV", "RectI", "TriI", "SawI"} => ~deg)
-               /\ prog' = Append(prog, Item(k, a, b, rev, deg))
-          \* wires are as frequent in drawings as all other symbols together: the tag only makes the simulator choose them more often
-          \/ \E a \in Pts, b \in Pts, t \in 1..WireWeight :
-               /\ Adj(a, b) /\ (prog = <<>> \/ a \in UsedPts \/ b \in UsedPts)
-               /\ prog' = Append(prog, Item("wire", a, b, FALSE, FALSE) @@ [t |-> t])
-          \/ \E a \in UsedPts, t \in 1..(3 * WireWeight) : Count("gnd") = 0 /\ prog' = Append(prog, Item("gnd", a, a, FALSE, FALSE) @@ [t |-> t])
-          \/ \E a \in UsedPts, t \in 1..WireWeight : Count("label") < 2 /\ prog' = Append(prog, Item("label", a, a, FALSE, FALSE) @@ [t |-> t])
+       /\ IF Randomised THEN prog' = Append(prog, RandomElement(Cand)) ELSE \E it \in Cand : prog' = Append(prog, it)
 Next == Add
 Spec == Init /\ [][Next]_vars
 
